@@ -47,6 +47,9 @@ def scenario(rng):
         sc["ffail"] = sorted(rng.sample(range(1, 6), rng.choice([0, 1, 2])))
     if kind == "short":
         sc["short"] = rng.choice([1, 3, 7])
+        if rng.random() < 0.5:
+            # the writer takes part of a line and then refuses the rest (WouldBlock): that line is lost, nothing else is
+            sc["midfail"] = sorted(rng.sample(range(1, 12), rng.choice([1, 2])))
     if kind == "steady":
         for r in range(L):
             for p in range(1, P + 1):
@@ -80,6 +83,9 @@ def scenario(rng):
         s += [{"do": "wait_producers"}, {"do": "wait_idle"}, {"do": "drop_guard"}]
     sc["kind"] = kind
     # how the producers' handles are made and used; for scenarios that do not depend on a small queue also which constructor
+    order = ["limit", "lossy"] + (["name"] if rng.random() < 0.5 else [])
+    rng.shuffle(order)
+    sc["builder_order"] = order
     sc["make_writer"] = rng.random() < 0.3
     sc["write_all"] = rng.random() < 0.3
     if kind in ("steady", "latewriter", "lastflush", "midstream") and rng.random() < 0.4:
